@@ -883,10 +883,16 @@ func (g *gen) fullThreshold(lines int, label string) {
 	g.recv("recv", g.freshData(20))
 	var sb strings.Builder
 	sb.WriteString(metaHeader)
-	for i := 0; i < lines; i++ {
+	// (lines in descending ref order: the model's index is a sorted list, which this order fills cheaply)
+	ghosts := make([]string, lines)
+	for i := range ghosts {
 		p := blob.RefFromBytes([]byte(fmt.Sprintf("ghost plain %d", i))).String()
 		c := blob.RefFromBytes([]byte(fmt.Sprintf("ghost cipher %d", i))).String()
-		fmt.Fprintf(&sb, "%s/%d/%s\n", p, i%1000, c)
+		ghosts[i] = fmt.Sprintf("%s/%d/%s\n", p, i%1000, c)
+	}
+	sort.Sort(sort.Reverse(sort.StringSlice(ghosts)))
+	for _, l := range ghosts {
+		sb.WriteString(l)
 	}
 	g.op("recv " + hk.Hex([]byte(sb.String())))
 	g.op("plant M E2")
@@ -902,7 +908,7 @@ func (g *gen) fullThreshold(lines int, label string) {
 			g.r.Hit("compaction:across-full-threshold")
 			g.op("sum")
 		}
-		if i == 120 || i == 214 {
+		if i == 214 {
 			// the scan meets a meta blob of >= FullMetaBlobSize lines
 			g.restart("keep", true)
 			g.op("calls")
